@@ -45,6 +45,12 @@ pub struct DeliveryCase {
     pub defs: Vec<InstrumentDef>,
     pub links: Vec<Link>,
     pub trading_enabled_at_start: bool,
+    /// the strategy's on-disconnect hook stops algorithmic trading
+    #[serde(default)]
+    pub disable_on_disconnect: bool,
+    /// the strategy's close-positions reaction also cancels the resting orders in scope
+    #[serde(default)]
+    pub close_also_cancels: bool,
     pub steps: Vec<Step>,
 }
 
@@ -110,8 +116,8 @@ impl Check for RequestDelivery {
             Tier::Quick => 25,
             Tier::Thorough => 50,
         };
-        (simple_world(2..=3, 1..4), prop::collection::vec(link(), 3), any::<bool>(), prop::collection::vec(step(), 1..max))
-            .prop_map(|(defs, links, trading_enabled_at_start, steps)| DeliveryCase { defs, links, trading_enabled_at_start, steps })
+        (simple_world(2..=3, 1..4), prop::collection::vec(link(), 3), any::<bool>(), prop::collection::vec(step(), 1..max), prop::bool::weighted(0.3), prop::bool::weighted(0.4))
+            .prop_map(|(defs, links, trading_enabled_at_start, steps, disable_on_disconnect, close_also_cancels)| DeliveryCase { defs, links, trading_enabled_at_start, steps, disable_on_disconnect, close_also_cancels })
             .boxed()
     }
 
@@ -122,6 +128,12 @@ impl Check for RequestDelivery {
         }
         let start = if case.trading_enabled_at_start { TradingState::Enabled } else { TradingState::Disabled };
         let mut rig = Rig::new(&case.defs, &case.links, start);
+        {
+            let mut log = rig.engine.strategy.log.lock().unwrap();
+            log.disable_on_disconnect = case.disable_on_disconnect;
+            log.close_also_cancels = case.close_also_cancels;
+        }
+        let (mut stopped_by_disconnect_hook, mut close_with_cancels) = (0u32, 0u32);
         let indexed = rig.indexed.clone();
         let mut resolver = Resolver::new(&indexed);
         let healthy = |rig: &Rig, ex: ExchangeIndex| ex.index() < rig.links.len() && rig.links[ex.index()] == Link::Healthy;
@@ -169,6 +181,15 @@ impl Check for RequestDelivery {
                 }
                 trading = *t;
             }
+            // a strategy that stops trading from its on-disconnect hook: the engine is disabled from
+            // this very event on
+            let is_notice = matches!(&event, EngineEvent::Market(barter_data::streams::consumer::MarketStreamEvent::Reconnecting(_)) | EngineEvent::Account(barter::execution::AccountStreamEvent::Reconnecting(_)));
+            if is_notice && case.disable_on_disconnect {
+                if trading == TradingState::Enabled {
+                    stopped_by_disconnect_hook += 1;
+                }
+                trading = TradingState::Disabled;
+            }
             if rig.engine.state.trading != trading {
                 bad!("trading-state", "{ctx_s}: engine trading state {:?}, expected {:?}", rig.engine.state.trading, trading);
             }
@@ -214,7 +235,12 @@ impl Check for RequestDelivery {
                         }
                     }
                     Command::CancelOrders(_) => cmd_kinds[2] = true,
-                    Command::ClosePositions(_) => cmd_kinds[3] = true,
+                    Command::ClosePositions(_) => {
+                        cmd_kinds[3] = true;
+                        if sent.iter().any(|r| matches!(r, Req::Cancel(_))) {
+                            close_with_cancels += 1;
+                        }
+                    }
                 }
                 for r in &sent {
                     if !healthy(&rig, r.exchange()) {
@@ -395,6 +421,8 @@ impl Check for RequestDelivery {
         rep.class_if(n_refused > 0, "risk_refusal");
         rep.class_if(n_delivered > 0, "successful_delivery");
         rep.class_if(toggles > 0, "trading_state_toggle");
+        rep.class_if(stopped_by_disconnect_hook > 0, "trading_stopped_by_on_disconnect_hook");
+        rep.class_if(close_with_cancels > 0, "close_positions_command_also_cancels");
         rep.class_if(unknown_ex > 0, "unknown_exchange_index");
         rep.class_if(disabled_cmds > 0, "command_while_disabled");
         rep.class_if(fatal_ticks > 0, "fatal_tick");
@@ -409,7 +437,7 @@ impl Check for RequestDelivery {
 }
 
 pub fn run(ctx: &mut Ctx) {
-    ctx.rule = "request_delivery: 2..3 exchanges with 3..6 instruments; each exchange's execution link Healthy (60%) / Closed (receiver dropped) / Missing; history vec(step,1..25|50) of engine events (market & account items, reconnect notices, trading-state updates, the four commands incl. requests addressed to an exchange index beyond the link table) each with the cancels/opens the scripted strategy returns if asked (25% marked for refusal by the scripted risk manager, 8% unknown exchange index). A history stops at its first fatal tick, as a real run does. non-trivial = >= 1 failed delivery or refusal AND >= 1 successful delivery; distinct by hash of the case.".into();
+    ctx.rule = "request_delivery: 2..3 exchanges with 3..6 instruments; each exchange's execution link Healthy (60%) / Closed (receiver dropped) / Missing; history vec(step,1..25|50) of engine events (market & account items, reconnect notices, trading-state updates, the four commands incl. requests addressed to an exchange index beyond the link table) each with the cancels/opens the scripted strategy returns if asked (25% marked for refusal by the scripted risk manager, 8% unknown exchange index). In 30% of the cases the strategy's on-disconnect hook stops algorithmic trading (no generation from that very event on), in 40% its close-positions reaction also cancels the resting orders in scope. A history stops at its first fatal tick, as a real run does. non-trivial = >= 1 failed delivery or refusal AND >= 1 successful delivery; distinct by hash of the case.".into();
     ctx.assumptions = vec![
         "a request names an existing instrument and that instrument's exchange, or an exchange index beyond the link table".into(),
         "several requests for the same (instrument, client order id) inside one tick: the resulting in-flight mark is not checked (order of marks is not stated)".into(),
